@@ -68,6 +68,30 @@ def runBody (s : Store) (done : Nat) : List Stmt → BodyResult
     | none => { store := s, failed := true, overflow := true, done := done }
     | some s' => runBody s' (done + 1) rest
 
+/-! ## redirections in `setup()`, the body and `teardown()` (`Utest::run`)
+
+`Utest::run` runs `setup()`; the body only if `setup()` ended normally; and `teardown()` in every case —
+also after a failing / throwing setup or body, and also after a redirection that was refused because the
+table is full.  Each phase is a statement list of its own (it ends at its first terminating statement). -/
+
+structure Phases where
+  setup    : List Stmt
+  body     : List Stmt
+  teardown : List Stmt
+deriving Repr, Inhabited
+
+/-- run a further phase on what the earlier phases left; failures accumulate -/
+def BodyResult.andThen (r : BodyResult) (next : List Stmt) : BodyResult :=
+  { store := (runBody r.store r.done next).store,
+    failed := r.failed || (runBody r.store r.done next).failed,
+    overflow := r.overflow || (runBody r.store r.done next).overflow,
+    done := (runBody r.store r.done next).done }
+
+/-- `Utest::run` as far as the pointer table is concerned -/
+def runPhases (s : Store) (t : Phases) : BodyResult :=
+  (if (runBody s 0 t.setup).failed then runBody s 0 t.setup
+   else (runBody s 0 t.setup).andThen t.body).andThen t.teardown
+
 /-! ## the plugin chain -/
 
 inductive Kind
@@ -181,6 +205,14 @@ def runTest (c : Chain) (s : Store) (body : List Stmt) : TestResult :=
     done := (runBody s 0 body).done,
     pre := runAllPre c, post := runAllPost c }
 
+/-- a test whose three phases redirect pointers -/
+def runTestP (c : Chain) (s : Store) (t : Phases) : TestResult :=
+  { store := postStore c (runPhases s t).store,
+    failed := (runPhases s t).failed || preFails c,
+    overflow := (runPhases s t).overflow,
+    done := (runPhases s t).done,
+    pre := runAllPre c, post := runAllPost c }
+
 /-- how the shell runs a test (`UtestShell::runOneTest`, `IgnoredUtestShell::runOneTest`) -/
 inductive RunKind
   | normal        -- in the current process
@@ -265,8 +297,38 @@ def runAllTestsReg (c : Chain) (s : Store) : List ScriptedTest → List TestResu
     ((runScripted c s t).1 :: (runAllTestsReg (runScripted c s t).2 (runScripted c s t).1.store rest).1,
      (runAllTestsReg (runScripted c s t).2 (runScripted c s t).1.store rest).2)
 
+def runTestKindP (k : RunKind) (c : Chain) (s : Store) (t : Phases) : TestResult :=
+  match k with
+  | .normal => runTestP c s t
+  | .ignoredRun => runTestP c s t
+  | .separate => { runTestP c s t with store := s }
+  | .ignored => { store := s, failed := false, overflow := false, done := 0, pre := [], post := [] }
+
+def runTestsP (c : Chain) (s : Store) : List Phases → Store
+  | [] => s
+  | t :: rest => runTestsP c (runTestP c s t).store rest
+
 def runTests (c : Chain) (s : Store) : List (List Stmt) → Store
   | [] => s
   | b :: rest => runTests c (runTest c s b).store rest
+
+/-! ## the command-line runner (`CommandLineTestRunner::runAllTestsMain`, `runAllTests`)
+
+`runAllTestsMain` constructs its own `SetPointerPlugin` (the constructor resets the table index), installs it in
+front of whatever the registry holds, runs the registry `repeat` times (`-r<n>`), and removes the plugin again BY
+NAME (`DEF_PLUGIN_SET_POINTER`). -/
+
+def cliPlugin (id : Nat) : Plugin :=
+  { id := id, name := Gen.Plugins.cliSetPointerName, enabled := true, kind := .setPointer }
+
+/-- the repeat loop: the whole list of tests `n` times over -/
+def runRepeated (c : Chain) (s : Store) : Nat → List (List Stmt) → Store
+  | 0, _ => s
+  | n + 1, bodies => runRepeated c (runTests c s bodies) n bodies
+
+/-- the chain the registry is left with, and the pointer store -/
+def runCli (id : Nat) (c : Chain) (s : Store) (n : Nat) (bodies : List (List Stmt)) : Chain × Store :=
+  (regRemove Gen.Plugins.cliSetPointerName (install c (cliPlugin id)),
+   runRepeated (install c (cliPlugin id)) (construct s) n bodies)
 
 end Plugins
